@@ -47,10 +47,25 @@ class Ctx:
         self.unmodelled: set = set()
         self.t0 = time.time()
         self.explanation = ""
+        self._rename = {}
+
+    def renamed(self, mapping):
+        """context manager: obligations recorded by shared rule functions are filed under this property's rule ids"""
+        ctx = self
+
+        class _R:
+            def __enter__(self_inner):
+                self_inner.old = dict(ctx._rename)
+                ctx._rename.update(mapping)
+
+            def __exit__(self_inner, *a):
+                ctx._rename = self_inner.old
+        return _R()
 
     # -- recording -----------------------------------------------------------
     def ob(self, rule: str, construct: str, verdict: str, detail: str = "", loc: str = "",
            derived: Any = "", required: Any = ""):
+        rule = self._rename.get(rule, rule)
         o = Obligation(rule, construct, verdict, detail, loc,
                        T.show(derived, 600) if not isinstance(derived, str) else derived,
                        T.show(required, 600) if not isinstance(required, str) else required)
@@ -104,6 +119,8 @@ class Ctx:
                 self.assumptions.append(e)
 
     def require_count(self, rule: str, minimum: int):
+        if rule in self._rename:
+            return  # shared rule functions do not impose their own vacuity bounds under another property
         self.min_counts[rule] = minimum
 
     def absorb(self, interp):
